@@ -742,6 +742,8 @@ def _c14():
                        ("bufsplit", (1, 2), "buffer_node -> two rejecting nodes: each message to exactly one"), ("async", (2, 3), "async_node completed by a foreign thread: wait_for_all waits for release_wait")]:
         L.append(leg("rt-" + k, "c14_rt", b, {"kind": k}, what="real scheduler: " + what, weight=2.0))
     L.append(leg("nodes-ow", "c15_nodes", (2, 3), {"only": "ow"}, flags=(), what="overwrite_node / write_once_node behind a broadcast_node: every sequence of 5 operations over put / add a successor / try_get / clear; an edge survives a refused message, every accepted value reaches every present and future successor"))
+    L.append(leg("nodes-limiter", "c15_nodes", (2, 3), {"only": "limiter"}, flags=(), what="limiter_node honours its threshold: every program of 3-5 steps over {put into the queue in front, direct try_put, decrement} incl. decrements that arrive while nothing is outstanding; never more than threshold forwarded messages without a decrement"))
+    L.append(leg("nodes-limiterint", "c15_nodes", (1, 2), {"only": "limiterint"}, flags=(), what="limiter_node<T, int>: integral decrements of 1-2 incl. surplus and negative values", weight=2.0))
     L.append(leg("buffers-seq6", "c15_nodes", (1, 2), {"only": "seq", "depth": 6}, flags=(), what="message conservation at the buffering nodes: all legal operation sequences of length 6 over {put, try_get, try_reserve, try_release, try_consume, attach an accepting successor} on buffer/queue/priority_queue/sequencer nodes from 0, 3, 4, 7, 8 buffered items (nothing lost or duplicated, a kept message is offered again, wait_for_all leaves nothing in transit)", weight=2.0))
     L.append(leg("buffers-seq7", "c15_nodes", (0, 1), {"only": "seq", "depth": 7, "prefills": "0.4"}, flags=(), what="same, length 7 from 0 and 4 buffered items (ring growth while an item is reserved)", tiers=("quick",)))
     L.append(leg("buffers-seq9", "c15_nodes", (1, 1), {"only": "seq", "depth": 9, "prefills": "0.4"}, flags=(), what="same, length 9", tiers=("thorough",), weight=3.0))
@@ -764,7 +766,8 @@ PROPS["C14"] = {
     "legs": _c14(),
 }
 def _c15():
-    L = [leg("vtbb-nodes", "c15_nodes", (3, 4), {"skip": "seq"}, flags=(), what="sequencer arrival permutations; join_node queueing/key_matching/reserving with every arrival interleaving; limiter programs over {queued put, direct put, decrement} "
+    L = [leg("vtbb-seqfar", "c15_nodes", (1, 2), {"only": "seqfar"}, flags=(), what="sequencer_node whose buffer grows by several doublings at once: 0/4/8/12 items already forwarded, 1-3 items waiting behind a missing head, an item 5..70 positions ahead, gaps filled in two scattered orders; the successor receives exactly 0,1,2,..."),
+         leg("vtbb-nodes", "c15_nodes", (3, 4), {"skip": "seq,seqfar"}, flags=(), what="sequencer arrival permutations; join_node queueing/key_matching/reserving with every arrival interleaving; limiter programs over {queued put, direct put, decrement} "
              "with a receiver that rejects by choice; overwrite/write_once op sequences; split/indexer/broadcast routing", weight=2.0),
          leg("vtbb-seq6", "c15_nodes", (1, 2), {"only": "seq", "depth": 6}, flags=(), what="buffer/queue/priority_queue/sequencer nodes: all legal operation sequences of length 6 over {put, try_get, try_reserve, try_release, try_consume, "
              "attach an accepting successor}, started from 0, 3, 4, 7 and 8 buffered items (capacity boundaries), forwarder tasks at explorer-chosen moments", weight=3.0),
